@@ -126,6 +126,8 @@ def views(case: dict, env: Env) -> list:
 def ending(cv: CallView) -> dict:
     """kind in value | fail | abort | propagate | circuit_open | other; plus delivered fields."""
     f = cv.final
+    if f["via"] == "closed":
+        return {"kind": "closed"}
     if f["via"] == "outcome":
         if f["ok"]:
             return {"kind": "value", "idx": f["value_idx"], "mode": "execute"}
